@@ -99,8 +99,16 @@ def unbreak : Str → Str
     else if a == '\n' then ' ' :: unbreak (b :: rest)
     else a :: unbreak (b :: rest)
 
+/-- `_bare_destination`: a definition's destination without its pointy brackets -/
+def bareDest (d : Str) : Str :=
+  if d.length ≥ 2 && d.head? == some '<' && d.getLast? == some '>' then (d.drop 1).dropLast else d
+
+/-- `_written_destination`: a destination that holds blanks is written in pointy brackets -/
+def writtenDest (d : Str) : Str :=
+  if d.any (fun c => c == ' ' || c == '\t' || c == '\n') then '<' :: d ++ ['>'] else d
+
 def findLabel (defs : List (Str × Str × Option Str)) (dest : Str) (title : Option Str) : Option Str :=
-  (defs.find? fun d => d.2.1 == dest && defTitle d.2.2 == title).map (·.1)
+  (defs.find? fun d => bareDest d.2.1 == dest && defTitle d.2.2 == title).map (·.1)
 
 mutual
   /-- returns (rendered text, new `_current_inline_text`) -/
@@ -119,11 +127,11 @@ mutual
         else ('[' :: r.1 ++ "][".toList ++ label ++ [']'], r.2)
       | none =>
         let tt : Str := match t with | some x => ' ' :: x | none => []
-        ('[' :: r.1 ++ "](".toList ++ dest ++ tt ++ [')'], r.2)
+        ('[' :: r.1 ++ "](".toList ++ writtenDest dest ++ tt ++ [')'], r.2)
     | .image cs dest title =>
       let r := renderInlines cfg inH acc cs
       let tt : Str := match title with | some x => ' ' :: normalizeTitle x | none => []
-      ("![".toList ++ r.1 ++ "](".toList ++ dest ++ tt ++ [')'], r.2)
+      ("![".toList ++ r.1 ++ "](".toList ++ writtenDest dest ++ tt ++ [')'], r.2)
     | .autolink dest => ('<' :: dest ++ ['>'], acc)
     | .url dest => (dest, acc)
     | .br soft => (if soft then ['\n'] else ['\\', '\n'], acc)
